@@ -3,14 +3,14 @@ CONSTANTS
   Bug = ""
   Fix = FALSE
   Sigma = {97}
-  PatLens = {17, 18, 34}
+  PatLens = {16, 17, 18}
   Dg = {9}
   MaxDigits = 3
   WordAlphabet = {97, 98, 65}
   MaxWordLen = 3
   MaxMixedLen = 2
   MaxExcLen = 2
-  CodecWordLens = {18, 35}
+  CodecWordLens = {17, 19}
   NSlices = 1
   Slice = 0
   MaxP = 1
